@@ -1,8 +1,10 @@
+\* quick tier: thinned products (Thin = 40), exhaustive sequences up to length 2 (length 3 sampled); Seed is replaced per run
 INIT Init
 NEXT Next
 CONSTANTS
   Seed = 1
-  Thin = 12
+  Thin = 40
   SeqLen = 2
   Chunks = 64
+INVARIANT WfOk
 CHECK_DEADLOCK FALSE
